@@ -4,6 +4,8 @@ on match.  Model: Model/Observe.lean; every statement is for all histories
 (induction over the operation list) or for every reachable (`Inv`) state.
 -/
 import CoapLite.Lemmas.Observe
+import CoapLite.Lemmas.Shape.Observe
+import CoapLite.Lemmas.Shape.Global
 
 namespace CoapLite.C14
 open CoapLite Observe
@@ -79,5 +81,20 @@ theorem acknowledge_keeps_observers (s : Subject) (h : Inv s) (ep mid : Nat) (pa
 /-! non-vacuity: a reachable state with two observers on one path -/
 example : (run [.reg 1 "p" [0xa], .reg 2 "p" [0xb], .reg 1 "p" [0xc]]).get "p" =
     some { sequence := 0, observers := [fresh 1 [0xc], fresh 2 [0xb]] } := by decide
+
+/-! ### tie to the source: the state the model carries is the state the code carries
+
+`Shapes.*` (Generated/Shapes.lean) is re-read from /repo/src on every run: the field lists of the
+structs this property's model mirrors, and every construct that introduces state outside the values
+the API passes around (thread-locals, `static mut`, cells, locks, atomics). The model accounts for
+exactly these fields (Lemmas/Shape/*.lean say which model field mirrors which); a field or a
+global added to the code – a memo, a marker, a digest in place of the data – breaks this theorem
+even if no explored input behaves differently. -/
+theorem state_shape_matches_source :
+    Shapes.globalState = [] ∧
+    Shapes.observer = [("endpoint", "Endpoint"), ("token", "Vec<u8>"), ("unacknowledged_messages", "u16"), ("message_id", "Option<u16>")] ∧
+    Shapes.resource = [("observers", "Vec<Observer<Endpoint>>"), ("sequence", "u32")] ∧
+    Shapes.subject = [("resources", "BTreeMap<ResourcePath,Resource<Endpoint>>"), ("unacknowledged_limit", "u8"), ("phantom", "PhantomData<Endpoint>")] :=
+  ⟨ShapeTie.no_global_state, ShapeTie.observer, ShapeTie.resource, ShapeTie.subject⟩
 
 end CoapLite.C14
